@@ -384,24 +384,127 @@ fn jxl(d: &[u8]) -> Result<Units, String> {
 
 const C2PA_UUID: [u8; 16] = [0xd8, 0xfe, 0xc3, 0xd6, 0x1b, 0x0e, 0x48, 0x3c, 0x92, 0x97, 0x58, 0x28, 0x87, 0x7e, 0xc4, 0x81];
 
-fn find_stco(d: &[u8], start: usize, end: usize, out: &mut Vec<(usize, usize)>) {
-    // recursively find stco boxes inside [start,end): (offset of entry table, count)
+fn rd(d: &[u8], p: usize, w: usize) -> Option<u64> {
+    let b = d.get(p..p + w)?;
+    Some(b.iter().fold(0u64, |a, x| (a << 8) | *x as u64))
+}
+
+/// Absolute-file-offset fields below [start,end): (position, width, extra) where the address is
+/// the field value plus `extra` (iloc: base + extent).  Second list: fields to blank only.
+fn find_pointers(d: &[u8], start: usize, end: usize, ptrs: &mut Vec<(String, usize, usize, u64)>, blank: &mut Vec<(usize, usize)>) -> Result<(), String> {
     let mut p = start;
     while p + 8 <= end {
-        let Some(sz) = be32(d, p) else { return };
+        let sz = be32(d, p).ok_or("short box")?;
         if sz < 8 || p + sz > end {
-            return;
+            return Err(format!("bad box size {sz} at {p}"));
         }
-        let t = &d[p + 4..p + 8];
-        if matches!(t, b"moov" | b"trak" | b"mdia" | b"minf" | b"stbl") {
-            find_stco(d, p + 8, p + sz, out);
-        } else if t == b"stco" {
-            if let Some(n) = be32(d, p + 12) {
-                out.push((p + 16, n));
+        let t: [u8; 4] = d[p + 4..p + 8].try_into().unwrap();
+        let body = p + 8;
+        let e = p + sz;
+        match &t {
+            b"moov" | b"trak" | b"mdia" | b"minf" | b"stbl" | b"moof" | b"traf" | b"mfra" => find_pointers(d, body, e, ptrs, blank)?,
+            b"meta" => find_pointers(d, body + 4, e, ptrs, blank)?,
+            b"stco" | b"co64" => {
+                let w = if &t == b"stco" { 4 } else { 8 };
+                let n = rd(d, body + 4, 4).ok_or("stco count")? as usize;
+                for i in 0..n {
+                    let at = body + 8 + i * w;
+                    if at + w > e {
+                        return Err("chunk offset table past its box".into());
+                    }
+                    ptrs.push((String::from_utf8_lossy(&t).to_string(), at, w, 0));
+                }
             }
+            b"saio" => {
+                let version = d[body];
+                let flags = rd(d, body + 1, 3).ok_or("saio")?;
+                let mut q = body + 4;
+                if flags & 1 == 1 {
+                    q += 8;
+                }
+                let n = rd(d, q, 4).ok_or("saio count")? as usize;
+                q += 4;
+                let w = if version == 0 { 4 } else { 8 };
+                for i in 0..n {
+                    let at = q + i * w;
+                    if at + w > e {
+                        return Err("saio table past its box".into());
+                    }
+                    ptrs.push(("saio".into(), at, w, 0));
+                }
+            }
+            b"tfhd" => {
+                let flags = rd(d, body + 1, 3).ok_or("tfhd")?;
+                if flags & 1 == 1 {
+                    if body + 16 > e {
+                        return Err("tfhd too short".into());
+                    }
+                    ptrs.push(("tfhd".into(), body + 8, 8, 0));
+                }
+            }
+            b"tfra" => {
+                let version = d[body];
+                let info = rd(d, body + 8, 4).ok_or("tfra")? as usize;
+                let n = rd(d, body + 12, 4).ok_or("tfra")? as usize;
+                let mut q = body + 16;
+                let w = if version == 1 { 8 } else { 4 };
+                for _ in 0..n {
+                    q += w; // time
+                    if q + w > e {
+                        return Err("tfra entries past their box".into());
+                    }
+                    ptrs.push(("tfra".into(), q, w, 0));
+                    q += w;
+                    q += ((info >> 4) & 3) + 1 + ((info >> 2) & 3) + 1 + (info & 3) + 1;
+                }
+            }
+            b"iloc" => {
+                let version = d[body];
+                let b0 = *d.get(body + 4).ok_or("iloc")?;
+                let b1 = *d.get(body + 5).ok_or("iloc")?;
+                let (osz, lsz, bsz) = ((b0 >> 4) as usize, (b0 & 15) as usize, (b1 >> 4) as usize);
+                let isz = if version == 1 || version == 2 { (b1 & 15) as usize } else { 0 };
+                let mut q = body + 6;
+                let cw = if version < 2 { 2 } else { 4 };
+                let n = rd(d, q, cw).ok_or("iloc count")? as usize;
+                q += cw;
+                for _ in 0..n {
+                    q += cw; // item id
+                    let mut method = 0;
+                    if version == 1 || version == 2 {
+                        method = rd(d, q, 2).ok_or("iloc")? & 15;
+                        q += 2;
+                    }
+                    q += 2; // data reference index
+                    let base_at = q;
+                    let base = if bsz > 0 { rd(d, q, bsz).ok_or("iloc base")? } else { 0 };
+                    q += bsz;
+                    let ec = rd(d, q, 2).ok_or("iloc extent count")? as usize;
+                    q += 2;
+                    for _ in 0..ec {
+                        q += isz;
+                        if q + osz + lsz > e {
+                            return Err("iloc extents past their box".into());
+                        }
+                        if method == 0 {
+                            if osz > 0 {
+                                ptrs.push(("iloc".into(), q, osz, base));
+                            } else if bsz > 0 {
+                                ptrs.push(("iloc".into(), base_at, bsz, 0));
+                            }
+                        }
+                        q += osz + lsz;
+                    }
+                    if method == 0 && bsz > 0 {
+                        blank.push((base_at, bsz));
+                    }
+                }
+            }
+            _ => {}
         }
         p += sz;
     }
+    Ok(())
 }
 
 fn mp4(d: &[u8]) -> Result<Units, String> {
@@ -413,21 +516,26 @@ fn mp4(d: &[u8]) -> Result<Units, String> {
         if &t == b"free" || &t == b"skip" {
             continue; // padding is not media
         }
-        if &t == b"moov" {
-            // replace chunk offsets by the bytes they address
-            let mut st = Vec::new();
-            find_stco(d, ps, e, &mut st);
+        if matches!(&t, b"moov" | b"meta" | b"moof" | b"mfra") {
+            // replace absolute file offsets by the bytes they address
+            let mut ptrs = Vec::new();
+            let mut blank = Vec::new();
+            find_pointers(d, s, e, &mut ptrs, &mut blank)?;
             let mut m = d[s..e].to_vec();
-            for (tab, n) in st {
-                for i in 0..n {
-                    let off = be32(d, tab + i * 4).ok_or("stco entry")?;
-                    let addressed = d.get(off..(off + 4).min(d.len())).ok_or(format!("stco offset {off} past end"))?.to_vec();
-                    u.push(("chunk-addressed".into(), addressed));
-                    let rel = tab + i * 4 - s;
-                    m[rel..rel + 4].copy_from_slice(&[0, 0, 0, 0]);
+            for (kind, at, w, extra) in ptrs {
+                let off = (rd(d, at, w).ok_or("pointer")? + extra) as usize;
+                let addressed = d.get(off..(off + 8).min(d.len())).ok_or(format!("{kind} offset {off} past end"))?.to_vec();
+                u.push((format!("{kind}-addressed"), addressed));
+                for b in &mut m[at - s..at - s + w] {
+                    *b = 0;
                 }
             }
-            u.push(("moov".into(), m));
+            for (at, w) in blank {
+                for b in &mut m[at - s..at - s + w] {
+                    *b = 0;
+                }
+            }
+            u.push((String::from_utf8_lossy(&t).to_string(), m));
             continue;
         }
         u.push((String::from_utf8_lossy(&t).to_string(), d[ps..e].to_vec()));
